@@ -352,5 +352,5 @@ MANIFEST = {
             "FRAGMENT SEARCHED = " + FRAGMENT_SEARCHED + ". Confirmed deviations of the unchanged translator from openCypher (OPTIONAL MATCH as first clause, jsonb ordering under ORDER BY, "
             "self loops under undirected patterns, missing relationship uniqueness across pattern parts, text-form comparisons, SQL run-time cast errors, ...) are findings in "
             "known_findings.json, each with a replay in corpus/C01.",
-    "note": "No PostgreSQL server: SQL meaning is a trusted Lean transcription of the documentation. Bounded evaluation on small graphs is search, not proof; the proof covers stages S1, S1o, S1d, S1c, S2b, S2x, S2c, S2n, S2L, S3a and S3b only (S2L against the base query's rows, see text).",
+    "note": "No PostgreSQL server: SQL meaning is a trusted Lean transcription of the documentation. Bounded evaluation on small graphs is search, not proof; the proof covers stages S1, S1o, S1d, S1c, S2b, S2x, S2c, S2n, S2L, S3a and S3b only (S2L against the base query's rows, see text; S2a — one hop without WHERE — is the WHERE-free case of S2b). The random generator draws LIMIT / SKIP boundary values (0, 1, 2^31, 2^63-1; SKIP 1000) and property maps on variable-length patterns; a row difference that no deviation switch explains keeps the catch-all key unexplained-difference (never registered) EXCEPT on the two query shapes of registered defects that the reference semantics has no switch for (expansion in a pattern that repeats a node variable; quantifier in the WHERE of an OPTIONAL MATCH over a relationship pattern), which are keyed rows-differ:<shape>.",
 }
